@@ -29,6 +29,11 @@ CLAIMED["C15"] = dict(
     text="For the NeGra heuristic, random trees with several/one/no HD and NK edges are marked and every constituent is compared with 'leftmost HD, else rightmost NK, else leftmost'. For rule-based marking every (preset, parent category, listed category, arity 2..4, position) combination with the other children unlisted is enumerated exhaustively and must select the listed child; Hypothesis adds random case, decorated labels and embedding. In all runs: exactly one head child per constituent, all others False, root False, the ' mark exactly on heads, tree otherwise unchanged; invalid rule sources must raise ValueError.",
     note="Trusted: rule tables read as data from transformconst; the claim checked for rules is only the stated one (a uniquely listed child is the head). Label stripping uses the reference parser of checks/C20.py.",
     ref="DESIGN.md section 2, C15")
+CLAIMED["C05"] = dict(
+    tech="Hypothesis discontinuity-biased trees with all head-assignment modes vs. a closed-form set-based reference of split+raise and the model's block tree; statement-level invariants (contiguity, sentence, label multiset, identity on continuous trees)",
+    text="Random trees with gaps at several levels, discontinuous head children and unary nodes are head-marked (direct flags on any child, NeGra heuristic, rule preset; with/without root_attach), then boyd_split and raising are applied. After boyd_split the tree must equal the model's block tree (k same-labelled nodes per constituent with k blocks, in order, numbered 1..k, exactly one head block, * / number printed exactly on split nodes); after raising it must equal the closed-form reference and satisfy the stated invariants directly.",
+    note="Trusted: reference in checks/C05.py (kept block = block of the yield containing the head child's kept block; new parent = lowest ancestor whose kept block contains the node), heads read back from the tree after marking. Bounded to 9 (quick) / 14 (thorough) tokens.",
+    ref="DESIGN.md section 2, C05")
 PENDING_REASON = "check not built yet in this round (planned, see DESIGN.md section 6); not claimed until it is quiet on the unchanged tree"
 
 
